@@ -26,7 +26,7 @@ for d in sorted(os.listdir(os.path.join(V, "seeded"))):
     }
     if d in matrix:
         tier, det, mach = matrix[d]
-        meta["checks_run"] = "tools/eval_seed.sh seeded/%s (all 17 checks, %s tier, patch applied to a scratch copy and undone afterwards)" % (d, tier)
+        meta["checks_run"] = "tools/eval_seed.sh seeded/%s (%s tier of the property it was written against, patch applied to a scratch worktree and undone afterwards; earlier evaluations against other checks are summarised in DESIGN.md 9.4)" % (d, tier)
         meta["detected_by"] = det
         if mach:
             meta["machinery_errors_in"] = mach
